@@ -185,13 +185,22 @@ func (e *Exec) deliver(tx model.Tx) (TxObs, []Disc, bool) {
 	var discs []Disc
 	w, m := e.W, e.M
 	obs := TxObs{Tx: tx}
-	payer := tx.Payer()
+	signers := tx.Signers
+	if signers == nil {
+		signers = tx.RequiredSigners()
+	}
+	seqs := func() (out []uint64) {
+		for _, n := range signers {
+			out = append(out, e.seqOf(n))
+		}
+		return
+	}
 	pre := StoresDump(w)
 	e.PreBal = e.ReadBalances()
 	if e.AfterTx != nil || e.Annotate != nil {
 		e.PreM = m.Clone()
 	}
-	seq0 := e.seqOf(payer)
+	seq0 := seqs()
 	bz, err := w.Sign(BuildTx(w, tx))
 	if err != nil {
 		panic(fmt.Sprintf("harness: cannot sign %+v: %v", tx, err))
@@ -201,7 +210,12 @@ func (e *Exec) deliver(tx model.Tx) (TxObs, []Disc, bool) {
 	post := StoresDump(w)
 	e.TxEvents = append(e.TxEvents, r.Events)
 	e.PostBal = e.ReadBalances()
-	obs.AnteOK = e.seqOf(payer) != seq0
+	for i, q := range seqs() {
+		if q != seq0[i] {
+			obs.AnteOK = true
+		}
+	}
+	wrongSigner := strings.Join(signers, ",") != strings.Join(tx.RequiredSigners(), ",")
 	diverged := false
 	unlocked := new(big.Int)
 	var fail *model.Fail
@@ -217,6 +231,12 @@ func (e *Exec) deliver(tx model.Tx) (TxObs, []Disc, bool) {
 		obs.Pred = "ante"
 	}
 	switch {
+	case r.OK() && wrongSigner:
+		k := model.Flatten(tx.Msgs)[0].Kind
+		discs = append(discs, Disc{Kind: "tx.accept_unexpected:" + k + ":wrong_signer",
+			Detail: fmt.Sprintf("transaction signed by %v succeeded although its messages name %v as the acting party; tx %s", signers, tx.RequiredSigners(), txJSON(tx)),
+			Sig:    map[string]string{"kind": k, "reason": "wrong_signer"}})
+		diverged = true
 	case r.OK() && !obs.AnteOK:
 		discs = append(discs, disc("harness.ante_detect", "tx succeeded but the payer's sequence did not advance: %+v", tx))
 		diverged = true
